@@ -131,19 +131,18 @@ func c15Out(p protocol.Perspective) func(bool) *c15Cfg {
 	}
 }
 
-// direct: the credit formula and the deferred deletion, completion by direct DeleteStream
-// calls (possible before the application accepted the stream), one type at a time.
-func c15Direct(p protocol.Perspective, t int) func(bool) *c15Cfg {
+// direct: the credit formula and the deferred deletion. Completion = DeleteStream called
+// directly (what connection.onStreamCompleted does), which is also possible before the
+// application accepted the stream. Frames that only open streams keep the per-stream
+// state trivial, so the reachable state set closes.
+func c15Direct(p protocol.Perspective, limB, limU int) func(bool) *c15Cfg {
 	return func(th bool) *c15Cfg {
-		lim := c15Pick(th, 2, 3)
-		cfg := &c15Cfg{pers: p, lim: [2]int{2, 2}, direct: true, acceptNone: true}
-		cfg.lim[t] = lim
-		cfg.frameMax[t] = lim + c15Pick(th, 3, 4)
-		cfg.frameKinds[t] = []int{c15KBlocked}
-		if t == 0 {
-			cfg.frameKinds[t] = []int{c15KBlocked, c15KMaxData}
-		}
-		cfg.accept[t] = true
+		cfg := &c15Cfg{pers: p, lim: [2]int{limB, limU}, direct: true, acceptNone: true}
+		extra := c15Pick(th, 3, 5)
+		cfg.frameMax[0], cfg.frameMax[1] = limB+extra, limU+extra
+		cfg.frameKinds[0] = []int{c15KBlocked, c15KMaxData}
+		cfg.frameKinds[1] = []int{c15KBlocked}
+		cfg.accept = [2]bool{true, true}
 		return cfg
 	}
 }
@@ -167,8 +166,8 @@ func c15Mixed(p protocol.Perspective) func(bool) *c15Cfg {
 func TestVerifC15(t *testing.T) {
 	srv, cli := protocol.PerspectiveServer, protocol.PerspectiveClient
 	explore.Main("C15", []explore.Part{
-		c15Part("direct-bidi-srv", c15Direct(srv, 0)),
-		c15Part("direct-uni-cli", c15Direct(cli, 1)),
+		c15Part("direct-srv", c15Direct(srv, 2, 3)),
+		c15Part("direct-cli", c15Direct(cli, 3, 2)),
 		c15Part("in-uni-srv", c15InUni(srv)),
 		c15Part("in-uni-cli", c15InUni(cli)),
 		c15Part("in-bidi-srv", c15InBidi(srv)),
